@@ -28,12 +28,12 @@ const (
 type dataKind int
 
 const (
-	dNull dataKind = iota
-	dInt           // an integer: Wallet throws, Notary / NEO panic
-	dNotary        // [to|null, till]
-	dNotaryShort   // [till] (malformed)
-	dPub           // public key bytes
-	dCall          // [hash, method, args]: the Wallet performs the nested call
+	dNull        dataKind = iota
+	dInt                  // an integer: Wallet throws, Notary / NEO panic
+	dNotary               // [to|null, till]
+	dNotaryShort          // [till] (malformed)
+	dPub                  // public key bytes
+	dCall                 // [hash, method, args]: the Wallet performs the nested call
 )
 
 // call is one invocation of a native method, as the generator decided it.
@@ -377,6 +377,11 @@ func (w *world) coverage(o interface{ Count(string) }, pre, post *absState, xs [
 		}
 		if !x.neo && x.to == nil {
 			o.Count("event:gas-burn")
+		}
+	}
+	for h := range pre.gas {
+		if post.gas[h] == nil {
+			o.Count("gas:account-deleted")
 		}
 	}
 	if len(post.neo) != len(pre.neo) || len(post.gas) != len(pre.gas) {
